@@ -130,7 +130,8 @@ def run(ck, m):
         if dyn:
             # snapshot/export callers in the storage strategies are judged by C06 / C18
             callers = [(cb, bi) for cb, bi in P.callers().get(b.id, []) if not cb.id.startswith('nundb::storage::s3')]
-            okc = bool(callers) and all(state_tests(m, cb) > 0 for cb, _ in callers)
+            # with no caller left outside the S3 strategies (the snapshot selection inlined its own loop) there is nothing for C01 to judge
+            okc = all(state_tests(m, cb) > 0 for cb, _ in callers)
             ck.ob('C01.b', fn, 'delegates-to-caller-predicate', okc,
                   'every caller of %s supplies a predicate that looks at the entry state (%s)' % (fn, [short(cb.id) for cb, _ in callers]) if okc else
                   'a caller of %s supplies a predicate that ignores the entry state' % fn, '%s:%s' % (b.file, b.line))
@@ -154,7 +155,8 @@ def run(ck, m):
         if c.locals[0] == 'bool':
             filt = c
     okf = False
-    if filt is not None:
+    # the filter is a bool closure handed to the iterator chain, or (loop form) sits in the lister's own body
+    for filt in ([filt] if filt is not None else [lb]):
         has_state = state_tests(m, filt) > 0
         has_sys = any(P.bodies.get(callee(t)) is not None and P.bodies[callee(t)].locals[0] == 'bool' and P.bodies[callee(t)].argc == 2
                       and P.bodies[callee(t)].locals[1] == 'bool' for _, t in filt.calls())
@@ -165,6 +167,14 @@ def run(ck, m):
                    for _, t in filt.calls() if callee_decl(t) in ('std::cmp::PartialEq::ne', 'std::cmp::PartialEq::eq')
                    for a in t['args'] for r in origins(filt, a))
         okf = okf and dele
+        if filt is lb and okf:
+            # loop form: the three tests must decide the push — the push is not reachable when any of them answers "no"
+            pushes = [bi for bi, t in lb.calls() if callee_decl(t) == 'std::vec::Vec::push']
+            tests_ = [bi for bi, t in lb.calls() if t['f'].get('ind') or callee_decl(t) in ('std::cmp::PartialEq::ne', 'std::cmp::PartialEq::eq')
+                      or (P.bodies.get(callee(t)) is not None and P.bodies[callee(t)].locals[0] == 'bool' and P.bodies[callee(t)].argc == 2
+                          and P.bodies[callee(t)].locals[1] == 'bool')]
+            okf = bool(pushes) and all(any(lb.dominates(tt, p_) != lb.dominates(ft, p_) for (s2, tt, ft) in bool_switches(lb, x))
+                                       for x in tests_ for p_ in pushes)
     ck.ob('C01.c', fn, 'filter-terms', okf,
           'the listing filter combines the system-key test, state != Deleted and the pattern function' if okf else
           'listing filter misses one of: system-key test, Deleted test, pattern function', '%s:%s' % (lb.file, lb.line))
@@ -296,6 +306,27 @@ def run(ck, m):
         if from_parse and from_arg:
             oke = True
             whye = 'stored number = add(parsed current value, the increment argument)'
+    if not oke:
+        # the addition may live in a private helper of the increment (`checked_increment(current, inc)`): its operands are mapped back
+        # through the helper's parameters to the arguments of the call
+        ADDS = ('std::num::checked_add', 'std::num::wrapping_add', 'std::num::saturating_add')
+        for hb_ in P.private_helpers(ib):
+            for hbi, ht in hb_.calls():
+                if callee_decl(ht) not in ADDS or len(ht['args']) < 2:
+                    continue
+                pa = [r[1] for r in origins(hb_, ht['args'][0]) if r[0] == 'param']
+                pb_ = [r[1] for r in origins(hb_, ht['args'][1]) if r[0] == 'param']
+                for cbi, ct in ib.calls():
+                    if callee(ct) != hb_.id:
+                        continue
+                    fp_ = any(r[0] == 'call' and callee_decl(ib.term(r[1])) == 'std::num::from_str_radix'
+                              for i_ in pa if i_ - 1 < len(ct['args']) for r in origins(ib, ct['args'][i_ - 1], stop_at_calls=True))
+                    fa_ = any(r[0] == 'param' and r[1] == 3 for i_ in pb_ if i_ - 1 < len(ct['args']) for r in origins(ib, ct['args'][i_ - 1]))
+                    if fp_ and fa_:
+                        oke = True
+                        whye = 'stored number = add(parsed current value, the increment argument) (in the helper %s)' % short(hb_.id)
+                        if callee_decl(ht) != 'std::num::checked_add':
+                            adds.append((cbi, {'f': ht['f'], 'args': [ct['args'][pa[0] - 1], ct['args'][pb_[0] - 1]], 'k': 'call', 'd': ht['d']}))
     # exactness: near the i32 bounds the sum must be refused, not clamped or wrapped (reply Ok while the value grew by less than asked)
     inexact = [(callee_decl(t).split('::')[-1], ib.loc(bi)) for bi, t in adds if callee_decl(t) in ('std::num::wrapping_add', 'std::num::saturating_add')
                and any(r[0] == 'param' and r[1] == 3 for r in origins(ib, t['args'][1]))]
